@@ -125,13 +125,13 @@ package compiler
 //@   modifies *o
 
 //@ func argExprToArg pure
-//@   property C02 C06 C07
+//@   property C02 C06 C07 C03 C04 C05
 //@   ensures [fields] result.Code == e.Code && result.Raw == e.Raw && result.DependsOnParams == e.DependsOnParams
 //@        && result.DependsOnServices == e.DependsOnServices && result.DependsOnTags == e.DependsOnTags
 
 // every argument is resolved, in order; the whole list is accepted iff every argument is
 //@ func resolveArgs pure
-//@   property C02 C04 C12 C06 C07
+//@   property C02 C04 C12 C06 C07 C03 C05 C11
 //@   reports_all
 //@   requires [wired] resolver != nil
 //@   ensures [same_length] len(r) == len(args)
@@ -157,7 +157,7 @@ package compiler
 
 // C02: calls keep their method, immutability flag and order; their arguments are resolved in order
 //@ func (StepCompileServices).serviceCalls pure
-//@   property C02 C12 C06 C07
+//@   property C02 C12 C06 C07 C05 C11
 //@   reports_all
 //@   requires [wired] s.argResolver != nil
 //@   ensures [same_length] len(r) == len(calls)
@@ -174,7 +174,7 @@ package compiler
 
 // C02 / C08: one field per declared key, in strictly increasing key order, each with the resolved value of that key
 //@ func (StepCompileServices).serviceFields pure
-//@   property C02 C08 C12 C06 C07
+//@   property C02 C08 C12 C06 C07 C05 C11
 //@   reports_all
 //@   requires [wired] s.argResolver != nil
 //@   ensures [names_are_keys] forall k int :: 0 <= k && k < len(r) ==> (r[k].Name in fields) && r[k].Value == argExprToArg(s.argResolver.ResolveArg(fields[r[k].Name]).0)
@@ -191,12 +191,12 @@ package compiler
 //@     invariant [b @b] (forall n string :: n in visited ==> s.argResolver.ResolveArg(fields[n]).1 == nil) ==> len(errs) == 0
 
 //@ func (StepCompileServices).serviceValue
-//@   property C02 C12
+//@   property C02 C12 C14
 //@   requires [wired] s.aliaser != nil
 //@   ensures [none] serviceValue == nil ==> result == ""
 //@   ensures [compiled_as_a_value_expression] serviceValue != nil ==> result == syntax.CompileServiceValue(s.aliaser, *serviceValue)
 //@ func (StepCompileServices).serviceConstructor
-//@   property C02 C12
+//@   property C02 C12 C14
 //@   requires [wired] s.aliaser != nil
 //@   ensures [none] c == nil ==> result == ""
 //@   ensures [local_function_as_written] c != nil && inLang(*c, reFull("[A-Za-z][A-Za-z0-9_]*")) ==> result == *c
@@ -205,7 +205,7 @@ package compiler
 // C15 / C02: a todo service compiles to a bare placeholder carrying only its name (nothing else is looked at, nothing is
 // resolved); any other service keeps its name and is built from its own declaration, attribute by attribute.
 //@ func (StepCompileServices).processService pure
-//@   property C02 C15 C04 C13 C12 C06 C07
+//@   property C02 C15 C04 C13 C12 C06 C07 C05 C11 C14
 //@   requires [wired] s.aliaser != nil && s.argResolver != nil
 //@   ensures [todo_placeholder] (i.Services[name].Todo != nil && *i.Services[name].Todo) ==>
 //@        result.1 == nil && o.Name == name && o.Todo && o.Getter == "" && !o.MustGetter && o.Type == "" && o.Value == "" && o.Constructor == ""
@@ -228,7 +228,7 @@ package compiler
 // C10 / C12: compile steps run in order and stop at the first failing one, so that later steps only ever see an input
 // that every earlier step (validation first) accepted.
 //@ func (Compiler).Compile
-//@   property C10 C12
+//@   property C10 C12 C11
 //@   requires [wired] forall j int :: 0 <= j && j < len(c.steps) ==> c.steps[j] != nil
 //@   ensures [runs_a_prefix_in_order] tlen() >= old(tlen()) && tlen() - old(tlen()) <= len(c.steps)
 //@        && (forall j int :: 0 <= j && j < tlen() - old(tlen()) ==> evIs(old(tlen()) + j, "internal/pkg/compiler:Step.Process") && evRecv(old(tlen()) + j) == c.steps[j])
@@ -242,7 +242,7 @@ package compiler
 // C02 / C08 / C05: one compiled service per declared service, in strictly increasing name order, each the image of
 // its own declaration, with the scope of its declaration.
 //@ func (StepCompileServices).Process
-//@   property C02 C08 C05 C15 C12 C06 C07
+//@   property C02 C08 C05 C15 C12 C06 C07 C11
 //@   reports_all
 //@   requires o != nil
 //@   requires [wired] s.aliaser != nil && s.argResolver != nil
@@ -263,7 +263,7 @@ package compiler
 
 // C04: a decorator keeps its tag and its arguments (resolved in order); its function is the alias-qualified declared one
 //@ func (StepCompileDecorators).processDecorator pure
-//@   property C04 C12 C06 C07
+//@   property C04 C12 C06 C07 C05 C11 C14
 //@   requires [wired] s.aliaser != nil && s.argResolver != nil
 //@   ensures [tag_and_raw] result.0.Tag == d.Tag && result.0.Raw == d.Decorator
 //@   ensures [args] result.0.Args == resolveArgs(s.argResolver, d.Args).0 && result.1 == resolveArgs(s.argResolver, d.Args).1
@@ -272,7 +272,7 @@ package compiler
 
 // C04: decorators keep their declaration order (file order after merging)
 //@ func (StepCompileDecorators).Process
-//@   property C04 C12 C06 C07
+//@   property C04 C12 C06 C07 C05 C11 C14
 //@   reports_all
 //@   requires d != nil
 //@   requires [wired] s.aliaser != nil && s.argResolver != nil
@@ -291,7 +291,7 @@ package compiler
 // C06 / C07 / C08: one compiled parameter per declared parameter, appended in strictly increasing name order; a parameter
 // keeps its name even when its value cannot be compiled; its dependency list is the resolver's.
 //@ func (StepCompileParams).Process
-//@   property C03 C06 C07 C08 C12
+//@   property C03 C06 C07 C08 C12 C11 C15
 //@   reports_all
 //@   requires d != nil
 //@   requires [wired] s.resolver != nil
